@@ -8,6 +8,7 @@ CONSTANTS
   MaxAcc = 4
   MaxAfterEnd = 2
   EarlyDestroy = TRUE
+  MaxObj = 0
   PostIncMoves = FALSE
   Threaded = FALSE
 INVARIANTS TypeOK SameSequence PayloadIntact SingleEOS ExceptionAtPosition ArgDelivered LocalsDestroyedOnce BlockedOnlyOnPending RecordClean TerminalOK
